@@ -24,6 +24,8 @@ RULE = (
     "values form a separate class that must raise ValueError/TypeError. Inside a case EVERY basis degree k up to the nominal "
     "one is integrated. non-trivial = n odd, or n >= 20, or a non-default extra parameter; distinct = distinct (class, n, params)"
 )
+RULE = RULE + " " + 'Every case also destroys the arrays of the grid it was handed and constructs the same rule again (must be identical).'
+
 ASSUMPTIONS = [
     "SciPy eval_legendre/eval_chebyt/eval_chebyu/eval_genlaguerre and mpmath are the trusted reference implementations",
     "double-exponential rules are generated inside their float64 envelope (pi/2*sinh(m h) < 690 for exp-sinh/log-exp-sinh; the "
